@@ -122,10 +122,12 @@ pub fn run_cbp(ctx: &mut Ctx, toks: &[&str]) -> String {
             }
         }
     })));
+    vclock::sleep_advances(true);
     vclock::enable(true);
     let client = &mut c.client;
     let r = std::panic::catch_unwind(std::panic::AssertUnwindSafe(|| client.now()));
     vclock::enable(false);
+    vclock::sleep_advances(false);
     vclock::set_hook(None);
     fmt_client(r)
 }
@@ -137,9 +139,13 @@ pub fn run(ctx: &mut Ctx, toks: &[&str]) -> String {
     vclock::set_mono(t[9], t[10]);
 
     // 1. the shm crate's public now() on the record
+    vclock::sleep_advances(true);
     vclock::enable(true);
     let r1 = std::panic::catch_unwind(|| ceb.now());
     vclock::enable(false);
+    vclock::sleep_advances(false);
+    vclock::set_real(t[7], t[8]);
+    vclock::set_mono(t[9], t[10]);
     let s1 = match r1 {
         Ok(r) => fmt_shm(r),
         Err(_) => "panic".to_string(),
@@ -152,12 +158,17 @@ pub fn run(ctx: &mut Ctx, toks: &[&str]) -> String {
     unsafe { (c.map.base.add(OFF_RECORD) as *mut ClockErrorBound).write_volatile(ceb) };
     c.gen = next_gen(c.gen);
     c.map.set_u16(OFF_GENERATION, c.gen);
+    // a client that sleeps inside the call sees time pass: the virtual clocks move on by what it sleeps
+    vclock::sleep_advances(true);
     vclock::enable(true);
     let client = &mut c.client;
     let r2 = std::panic::catch_unwind(std::panic::AssertUnwindSafe(|| client.now()));
     // the same call again: same segment content (same generation), same clock readings
+    vclock::set_real(t[7], t[8]);
+    vclock::set_mono(t[9], t[10]);
     let r2b = std::panic::catch_unwind(std::panic::AssertUnwindSafe(|| client.now()));
     vclock::enable(false);
+    vclock::sleep_advances(false);
     let fmt = |r2: std::thread::Result<Result<clock_bound_client::ClockBoundNowResult, clock_bound_client::ClockBoundError>>| match r2 {
         Ok(Ok(n)) => {
             let e: libc::timespec = *n.earliest.as_ref();
